@@ -11,6 +11,7 @@ import (
 	"os"
 	"os/exec"
 	"path/filepath"
+	"regexp"
 	"runtime"
 	"strings"
 	"sync"
@@ -248,11 +249,40 @@ func (w *Workspace) WriteFile(rel string, data []byte) error {
 // path, the compiler output of the packages that failed.
 func (w *Workspace) BuildPackages(patterns ...string) (map[string]string, error) {
 	args := append([]string{"build", "-gcflags=-e"}, patterns...)
-	out, err := w.Go(w.ModuleDir(), nil, args...)
-	if err == nil {
-		return nil, nil
-	}
 	fails := map[string]string{}
+	var out []byte
+	var err error
+	// a package importing a path that no module provides stops the whole build before anything is
+	// compiled: such packages are recorded as failed, moved out of the pattern's reach and the build is repeated
+	for round := 0; ; round++ {
+		out, err = w.Go(w.ModuleDir(), nil, args...)
+		if err == nil {
+			if len(fails) == 0 {
+				return nil, nil
+			}
+			return fails, nil
+		}
+		moved := false
+		for _, line := range strings.Split(string(out), "\n") {
+			m := unresolvedRe.FindStringSubmatch(line)
+			if m == nil {
+				continue
+			}
+			dir := filepath.Dir(m[1])
+			pkg := "vw/" + filepath.ToSlash(dir)
+			if _, seen := fails[pkg]; seen {
+				continue
+			}
+			fails[pkg] = line + "\n"
+			abs := filepath.Join(w.ModuleDir(), dir)
+			if e := os.Rename(abs, filepath.Join(filepath.Dir(abs), "_unresolved_"+filepath.Base(abs))); e == nil {
+				moved = true
+			}
+		}
+		if !moved || round > 50 {
+			break
+		}
+	}
 	cur := ""
 	for _, line := range strings.Split(string(out), "\n") {
 		if strings.HasPrefix(line, "# ") {
@@ -269,6 +299,8 @@ func (w *Workspace) BuildPackages(patterns ...string) (map[string]string, error)
 	}
 	return fails, nil
 }
+
+var unresolvedRe = regexp.MustCompile(`^([^\s:]+\.go):\d+:\d+: (?:cannot find module providing package|no required module provides package|package \S+ is not in (?:std|GOROOT))`)
 
 // BuildDriver links the driver binary importing the given case packages.
 func (w *Workspace) BuildDriver(name string, imports []string, race bool) (string, error) {
